@@ -206,6 +206,7 @@ class Stream:
         self.note = ""
         self.interim = 0
         self.surplus = False
+        self.cap = 0              # client side: response cap configured for this case (0 = harness default)
 
     def cls(self):
         order = ["chunked-trailers", "chunked-ext", "chunked", "close-delimited", "content-length", "no-body"]
@@ -216,7 +217,7 @@ class Stream:
         return cs[0]
 
     def sig(self):
-        parts = [self.side, self.kind, self.hclass or "", "n%d" % len(self.msgs), "i%d" % self.interim, "sp%d" % int(self.surplus)]
+        parts = [self.side, self.kind, self.hclass or "", "n%d" % len(self.msgs), "i%d" % self.interim, "sp%d" % int(self.surplus), "cap%d" % self.cap]
         for m in self.msgs[:4]:
             parts.append("/".join(m.features()))
         return "|".join(parts)
@@ -238,8 +239,10 @@ class Stream:
 
     def line(self):
         f = [self.id, self.kind, str(self.expect_n), self.method, self.end, self.segspec, self.wire.hex()]
-        if self.flood_unit:
+        if self.flood_unit or self.cap:
             f += [self.flood_unit.hex(), str(self.flood_total)]
+        if self.cap:
+            f.append(str(self.cap))
         return "\t".join(f)
 
     def sample(self):
@@ -913,3 +916,118 @@ def client_floods(rng):
         st.segspec = ""
         out.append(st)
     return out
+
+
+# ------------------------------------------------------------------------------------------------
+# client side: chunked framing *overhead* against the response cap (raw bytes >> decoded bytes)
+
+CLIENT_READ_CHUNK = 8192   # HttpClient reads at most this much per receiveSync call
+KERNEL_SLACK = 512 * 1024  # scripted server SO_SNDBUF 64 KiB (doubled by the kernel) + the client's socket receive buffer
+SMALL_CAPS = (64 * 1024, 256 * 1024)
+
+
+def _overhead_msg(shape, raw_target):
+    """a *valid* chunked 200 response whose wire size is close to raw_target while the decoded body stays tiny."""
+    m = Msg("resp")
+    m.status, m.reason, m.version = 200, "OK", "1.1"
+    m.headers = [("X-Shape", b" " + shape.encode())]
+    m.framing = "chunked"
+    m.te_value = b" chunked"
+    room = max(64, raw_target - 120)
+    if shape == "huge-extensions":
+        ext = b";pad=" + b"e" * 4000
+        n = max(1, room // (len(ext) + 6))
+        m.body = bytes(97 + (i % 26) for i in range(n))
+        m.chunks = [(1, b"1", ext)] * n
+    elif shape == "long-size-line":
+        m.body = b"hello"
+        m.chunks = [(5, b"0" * max(1, room - 20) + b"5", b"")]
+    elif shape == "huge-trailers":
+        m.body = b"hello"
+        m.chunks = [(5, b"5", b"")]
+        n = max(1, (room - 20) // 1012)
+        m.trailers = [("X-T-%d" % i, b" " + b"t" * (1000 - len(str(i)))) for i in range(n)]
+    elif shape == "one-byte-chunks":
+        n = max(1, room // 6)
+        m.body = bytes(65 + (i % 26) for i in range(n))
+        m.chunks = [(1, b"1", b"")] * n
+    elif shape == "last-chunk-extension":
+        m.body = b"hello"
+        m.chunks = [(5, b"5", b"")]
+        m.last_chunk = b"0;pad=" + b"z" * max(1, room - 40)
+    else:
+        raise ValueError(shape)
+    return m
+
+
+OVERHEAD_SHAPES = ["huge-extensions", "long-size-line", "huge-trailers", "one-byte-chunks", "last-chunk-extension"]
+
+
+def client_overhead(rng, quick=True):
+    """returns (controls, hostile, floods): controls = same shapes just under the cap (must be returned exactly),
+    hostile = complete messages / truncated streams whose raw size exceeds the cap (all below the transport's
+    1 MiB sync receive buffer, so the client's own cap is the only bound in play), floods = never-ending
+    overhead, paced, plus one unpaced flood above the sync buffer (which bound fires is recorded)."""
+    controls, hostile, floods = [], [], []
+    k = 0
+    for cap in SMALL_CAPS:
+        for shape in OVERHEAD_SHAPES:
+            if shape == "one-byte-chunks" and cap != SMALL_CAPS[0]:
+                continue
+            # control: whole response (headers included) just under the cap
+            for slack in ((1500,) if quick else (1500, 200)):
+                m = _overhead_msg(shape, cap - slack)
+                st = Stream("cc%d" % k, "client", "v"); k += 1
+                st.cap, st.method = cap, "GET"
+                st.msgs, st.expect_n = [m], 1
+                st.end = "k"
+                finish_stream(st, rng, [m], all_cut_limit=0, listed=3, multi=1)
+                assert len(st.wire) <= cap, (shape, cap, len(st.wire))
+                st.note = "%s, %d raw bytes under a %d-byte cap" % (shape, len(st.wire), cap)
+                controls.append(st)
+            # over the cap: complete valid message, raw = 2.4 x cap (< 1 MiB), decoded tiny
+            m = _overhead_msg(shape, int(cap * 2.4))
+            e = Enc(); m.encode(e)
+            w = bytes(e.buf)
+            st = Stream("co%d" % k, "client", "h"); k += 1
+            st.cap, st.method, st.end = cap, "GET", rng.choice("kc")
+            st.hclass = "chunk-overhead-" + shape
+            st.wire = w
+            L = len(w)
+            cuts = sorted(set([cap - 1, cap + 1, cap + CLIENT_READ_CHUNK + 1, L // 2, L - 1]))
+            st.segspec = "L:" + ",".join(str(c) for c in cuts if 0 < c < L)
+            st.note = "complete chunked response, %s: %d raw bytes (%d decoded) against a %d-byte cap" % (shape, L, len(m.body), cap)
+            hostile.append(st)
+        # truncated overhead, then the peer closes: the cap must fire long before the end of the stream
+        for shape, pre, fill in (("unterminated-size-line", b"", b"0"), ("unterminated-extension", b"1;x=", b"a"),
+                                 ("unterminated-trailer-section", b"5\r\nhello\r\n0\r\n", b"X-T: " + b"t" * 1017 + CRLF)):
+            total = int(cap * 2.4)
+            w = b"HTTP/1.1 200 OK\r\nTransfer-Encoding: chunked\r\n\r\n" + pre
+            w += (fill * (total // len(fill) + 1))[: total - len(w)]
+            st = Stream("co%d" % k, "client", "h"); k += 1
+            st.cap, st.method, st.end = cap, "GET", "c"
+            st.hclass = "chunk-overhead-" + shape
+            st.wire = w
+            st.segspec = "L:%d,%d" % (cap + 1, len(w) // 2)
+            st.note = "%s: %d raw bytes, 0-5 decoded, then close, against a %d-byte cap" % (shape, len(w), cap)
+            hostile.append(st)
+    cap = SMALL_CAPS[0]
+    head = b"HTTP/1.1 200 OK\r\nTransfer-Encoding: chunked\r\n\r\n"
+    specs = [
+        # 's' = slow pace (~4 MB/s in 4 KiB units): the client keeps up, nothing is dropped by the transport, so
+        # the bytes sent before the client stops reading bound what it consumed
+        ("flood-chunk-size-line", head, b"0" * 4096, "ks"),
+        ("flood-chunk-extension", head + b"1;x=", b"a" * 4096, "ks"),
+        ("flood-trailer-section", head + b"5\r\nhello\r\n0\r\n", (b"X-T: " + b"t" * 1017 + CRLF) * 4, "ks"),
+        ("flood-tiny-chunks-big-extensions", head, (b"1;e=" + b"e" * 1010 + b"\r\nx\r\n") * 4, "ks"),
+        ("flood-one-byte-chunks", head, b"1\r\nx\r\n" * 680, "ks"),
+        ("flood-unpaced-chunk-extension", head + b"1;x=", b"a" * 16384, "ku"),
+    ]
+    for i, (hclass, pre, u, end) in enumerate(specs):
+        st = Stream("cg%d" % i, "client", "f")
+        st.hclass, st.wire, st.flood_unit = hclass, pre, u
+        st.flood_total = 3 * 1024 * 1024 if "u" in end else 2560 * 1024
+        st.cap, st.method, st.end, st.segspec = cap, "GET", end, ""
+        st.note = "%s against a %d-byte cap" % (hclass, cap)
+        floods.append(st)
+    return controls, hostile, floods
